@@ -440,10 +440,7 @@ Proof.
 Qed.
 
 (* the premise about the prefix digests, for the file an entry meets (if it meets one) *)
-Definition coll_ok (e : tr_entry) (st : state) : Prop :=
-  forall ln st1, tr_create c d (tr_payload c e) [] st = (NOk ln, st1) ->
-    tr_old_content st1 (tr_leaf d ln (tr_payload c e)) <> [] ->
-    tr_no_collision hx (te_data e) (tr_old_content st1 (tr_leaf d ln (tr_payload c e))).
+Notation coll_ok := (tr_coll_ok hx c d).
 
 (* what one accepted entry does to the state, whichever of the four ways it is received *)
 Lemma spec_entry_effect st e sc ln st' : map_good (st_map st) ->
@@ -505,7 +502,7 @@ Proof.
     + destruct (tr_json_names c && (0 <? tr_target_size d l1 (tr_payload c e) st1)) eqn:E2.
       * (* resumed: the rest of the source behind the agreed offset; no collision: it IS the source *)
         apply andb_true_iff in E2 as [Ej E2].
-        pose proof (Dcoll l1 st1 E1) as Dc.
+        pose proof (Dcoll l1 st1 E1) as Dc. unfold tr_no_collision in Dc |- *.
         unfold tr_target_size, tr_leaf in E2. unfold tr_leaf in Hs, Dc. fold (tr_tail c e) in E2, Hs, Dc.
         rewrite join_good in E2, Hs, Dc by (constructor; assumption).
         set (leaf := d ++ l1 :: tr_tail c e) in *.
@@ -666,13 +663,7 @@ Proof.
   apply in_or_app. left. rewrite <- Heq. apply in_map. exact Ha.
 Qed.
 
-(* the premise about the prefix digests along the run: for every entry, the file it meets *)
-Fixpoint resume_safe (items : list (tr_entry * tr_sched)) (st : state) : Prop :=
-  match items with
-  | [] => True
-  | (e, sc) :: r =>
-    coll_ok e st /\ match spec_entry e sc st with Some (_, st') => resume_safe r st' | None => True end
-  end.
+Notation resume_safe := (tr_resume_safe hx ahdr aparse c d).
 
 Lemma spec_inv : forall items done st names per all stf,
   Inv st done -> tr_wf c (map fst done ++ map fst items) -> tr_hdrs_ok ahdr aparse (map fst items) ->
@@ -684,7 +675,7 @@ Proof.
   - cbn in Hs. inversion Hs; subst. cbn. rewrite app_nil_r. auto.
   - cbn [tr_spec] in Hs. destruct (spec_entry e sc st) as [[ln st1]|] eqn:Ee; [|discriminate].
     destruct (spec es st1 (tr_add_name names ln)) as [[[per' all'] stf']|] eqn:Er; [|discriminate].
-    inversion Hs; subst. cbn [map fst] in Hwf, Hh. cbn [resume_safe] in Hsafe. rewrite Ee in Hsafe. destruct Hsafe as [Hcoll Hsafe].
+    inversion Hs; subst. cbn [map fst] in Hwf, Hh. cbn [tr_resume_safe] in Hsafe. rewrite Ee in Hsafe. destruct Hsafe as [Hcoll Hsafe].
     assert (Hwf1 : tr_wf c (map fst (done ++ [(e, ln)]) ++ map fst es)).
     { rewrite map_app, <- app_assoc. exact Hwf. }
     destruct Hwf as (Hw1 & Hw2 & Hw3 & Hw4).
